@@ -295,6 +295,7 @@ struct GenProfile {
     bool abstract_flags = false;
     bool complete_presentation = false; // every record lists all transitive bases + self
     bool big = false;                   // > 64 classes / slots / definitions (bitsets wider than a word)
+    bool many_defs = false;             // ordinary graph, but the two big method objects get > 64 definitions
     int max_tuples = 4096;
     uint32_t shape_mask = 0xffffffffu; // allowed shapes
 };
